@@ -192,3 +192,25 @@ for MW in ("hypercorn.middleware.wsgi:AsyncioWSGIMiddleware", "hypercorn.middlew
     fn(MW + ".__call__", params={"scope": "opaque", "receive": "opaque", "send": "opaque"},
        ensures=[("C17.middleware.delegates", "n_emitted('wsgi_app_calls') == 1 and same(emitted('wsgi_app_calls')[0][0], scope) and same(emitted('wsgi_app_calls')[0][1], receive) and same(emitted('wsgi_app_calls')[0][2], send)", "C17")],
        props=("C17",))
+
+# ------------------------------------------------------------------------------------------------
+# How an application gets its wrapper (C17 "a body larger than wsgi_max_body_size is answered 400":
+# the limit the wrapper enforces is the configured one; C01/C05: an ASGI application is called
+# with exactly the scope / receive / send the server built).
+AWR = "hypercorn.app_wrappers:ASGIWrapper"
+cls(AWR, fields={"app": "callable{record:app_calls;yields:1}"}, immutable=["app"])
+fn(AWR + ".__init__", params={"app": "callable{record:app_calls;yields:1}"}, inline=True,
+   ensures=[("C01.wrapper.app", "same(self.app, app)", "C01,C17")], props=("C01", "C17"))
+fn(AWR + ".__call__", params={"scope": "opaque", "receive": "opaque", "send": "opaque", "sync_spawn": "opaque", "call_soon": "opaque"},
+   ensures=[("C01.wrapper.pass-through", "n_emitted('app_calls') == 1 and same(emitted('app_calls')[0][0], scope) and same(emitted('app_calls')[0][1], receive) and same(emitted('app_calls')[0][2], send)", "C01,C05,C17")],
+   props=("C01", "C05", "C17"))
+fn(W + ".__init__", params={"app": "opaque", "max_body_size": "int"}, inline=True,
+   ensures=[("C17.wrapper.limit", "same(self.app, app) and self.max_body_size == max_body_size", "C17")], props=("C17",))
+fn("hypercorn.utils:wrap_app", params={"app": "opaque", "wsgi_max_body_size": "int", "mode": "opt str"},
+   ensures=[
+       # an explicit mode decides; the WSGI wrapper carries the configured body limit
+       ("C17.wrap.wsgi", "implies(mode == 'wsgi', isinstance(result, WSGIWrapper) and same(result.app, app) and result.max_body_size == wsgi_max_body_size)", "C17"),
+       ("C17.wrap.asgi", "implies(mode == 'asgi', isinstance(result, ASGIWrapper) and same(result.app, app))", "C17,C01"),
+       ("C17.wrap.detected", "implies(mode is None, same(result.app, app) and implies(isinstance(result, WSGIWrapper), result.max_body_size == wsgi_max_body_size))", "C17"),
+   ],
+   props=("C17",))
